@@ -1293,19 +1293,21 @@ class VM:
 
         def map_fn(*args):
             callback = require_callable(args[0] if args else UNDEFINED, "map callback")
+            this_arg = args[1] if len(args) > 1 else UNDEFINED
             result = JSArray()
             result._elements = []
             for i, elem in enumerate(arr._elements):
-                val = vm._call_callback(callback, [elem, i, arr])
+                val = vm._call_callback(callback, [elem, i, arr], this_arg)
                 result._elements.append(val)
             return result
 
         def filter_fn(*args):
             callback = require_callable(args[0] if args else UNDEFINED, "filter callback")
+            this_arg = args[1] if len(args) > 1 else UNDEFINED
             result = JSArray()
             result._elements = []
             for i, elem in enumerate(arr._elements):
-                val = vm._call_callback(callback, [elem, i, arr])
+                val = vm._call_callback(callback, [elem, i, arr], this_arg)
                 if to_boolean(val):
                     result._elements.append(elem)
             return result
@@ -1372,8 +1374,9 @@ class VM:
 
         def forEach_fn(*args):
             callback = require_callable(args[0] if args else UNDEFINED, "forEach callback")
+            this_arg = args[1] if len(args) > 1 else UNDEFINED
             for i, elem in enumerate(arr._elements):
-                vm._call_callback(callback, [elem, i, arr])
+                vm._call_callback(callback, [elem, i, arr], this_arg)
             return UNDEFINED
 
         def indexOf_fn(*args):
@@ -1398,32 +1401,36 @@ class VM:
 
         def find_fn(*args):
             callback = require_callable(args[0] if args else UNDEFINED, "find callback")
+            this_arg = args[1] if len(args) > 1 else UNDEFINED
             for i, elem in enumerate(arr._elements):
-                val = vm._call_callback(callback, [elem, i, arr])
+                val = vm._call_callback(callback, [elem, i, arr], this_arg)
                 if to_boolean(val):
                     return elem
             return UNDEFINED
 
         def findIndex_fn(*args):
             callback = require_callable(args[0] if args else UNDEFINED, "findIndex callback")
+            this_arg = args[1] if len(args) > 1 else UNDEFINED
             for i, elem in enumerate(arr._elements):
-                val = vm._call_callback(callback, [elem, i, arr])
+                val = vm._call_callback(callback, [elem, i, arr], this_arg)
                 if to_boolean(val):
                     return i
             return -1
 
         def some_fn(*args):
             callback = require_callable(args[0] if args else UNDEFINED, "some callback")
+            this_arg = args[1] if len(args) > 1 else UNDEFINED
             for i, elem in enumerate(arr._elements):
-                val = vm._call_callback(callback, [elem, i, arr])
+                val = vm._call_callback(callback, [elem, i, arr], this_arg)
                 if to_boolean(val):
                     return True
             return False
 
         def every_fn(*args):
             callback = require_callable(args[0] if args else UNDEFINED, "every callback")
+            this_arg = args[1] if len(args) > 1 else UNDEFINED
             for i, elem in enumerate(arr._elements):
-                val = vm._call_callback(callback, [elem, i, arr])
+                val = vm._call_callback(callback, [elem, i, arr], this_arg)
                 if not to_boolean(val):
                     return False
             return True
